@@ -177,3 +177,33 @@ Definition rt_corr_bad (cs : list (N * tcase)) : list N :=
                             | CasePrint s printed => negb (str_eqb (write_string_literal s) printed)
                             | CaseParse inp r => negb (ostr_eqb (tok_result inp) r)
                             end) cs).
+
+(* ------------------------------------------------------------------------------------------ *)
+(* C15, for keys that are texts or booleans: comparing two spellings without deserialising them.
+   compare_recon_values compares the event streams of the two inputs; for a single text-like token the
+   stream is one TextValue / BooleanValue event with the un-escaped content.  When one of the inputs is
+   not valid Recon the comparison is string equality. *)
+Inductive key_tok := KText (t : str) | KBool (b : bool) | KInvalid.
+
+Definition key_token (inp : str) : key_tok :=
+  match (let (t, rest) := text_token (skip_blanks inp) in (t, skip_blanks rest)) with
+  | (TokText t, []) => KText t
+  | (TokBool b, []) => KBool b
+  | _ => KInvalid
+  end.
+
+Definition text_key_eq (a b : str) : bool :=
+  match key_token a, key_token b with
+  | KText x, KText y => str_eqb x y
+  | KBool x, KBool y => Bool.eqb x y
+  | KInvalid, _ | _, KInvalid => str_eqb a b
+  | _, _ => false
+  end.
+
+Inductive kcase := CaseKeys (a b : str) (equal : bool) (same_hash : bool).
+
+(* equal spellings must also hash alike; unequal ones may or may not *)
+Definition key_corr_bad (cs : list (N * kcase)) : list N :=
+  map fst (filter (fun c => match snd c with
+                            | CaseKeys a b eq sh => negb (Bool.eqb (text_key_eq a b) eq) || (eq && negb sh)
+                            end) cs).
